@@ -186,3 +186,39 @@ pub fn group_by<T: Clone, K: Ord>(items: &[T], key: impl Fn(&T) -> K) -> BTreeMa
     }
     m
 }
+
+/// An entry that is removed (by an earlier `-exec rm -rf {} ;` in the same expression) before TEST is
+/// evaluated on it: its status cannot be read any more. Whatever the diagnostic says, it belongs on
+/// standard error; standard output holds exactly the entries TEST selects. Returns
+/// Err(description) when that is not so. `expect` = the paths that must be printed.
+pub fn removed_entry_case(sbx: &Path, test: &[&str], victim_is_dir: bool, expect: &[&str]) -> Result<(), String> {
+    let base = sbx.join("ec");
+    let _ = crate::sandbox::force_remove(&base);
+    std::fs::create_dir_all(base.join("d")).map_err(|e| e.to_string())?;
+    std::fs::write(base.join("d/keep"), b"").map_err(|e| e.to_string())?;
+    std::fs::write(base.join("ref"), b"").map_err(|e| e.to_string())?;
+    set_times(&base.join("ref"), (946_684_800, 0), (946_684_800, 0))?;
+    if victim_is_dir {
+        std::fs::create_dir(base.join("d/victim")).map_err(|e| e.to_string())?;
+    } else {
+        std::fs::write(base.join("d/victim"), b"").map_err(|e| e.to_string())?;
+    }
+    let cwd = std::env::current_dir().ok();
+    std::env::set_current_dir(sbx).map_err(|e| e.to_string())?;
+    let mut args: Vec<&str> = vec!["ec/d", "-sorted", "(", "-name", "victim", "-exec", "rm", "-rf", "{}", ";", "-o", "-true", ")"];
+    args.extend(test.iter().copied());
+    args.push("-print");
+    let got = crate::findrun::run_find(&args);
+    if let Some(c) = cwd {
+        let _ = std::env::set_current_dir(c);
+    }
+    let _ = crate::sandbox::force_remove(&base);
+    let lines: Vec<String> = String::from_utf8_lossy(&got.out).lines().map(String::from).collect();
+    if got.panicked() {
+        return Err(format!("find {:?}: {}", args, got.brief()));
+    }
+    if lines != expect {
+        return Err(format!("find {:?}: standard output {:?}, expected exactly {:?}; standard error {:?}", args, lines, expect, String::from_utf8_lossy(&got.err)));
+    }
+    Ok(())
+}
